@@ -315,7 +315,7 @@ def shaped_case(rng):
             res0 = ops0.eval({t["name"]: pipes.table_frame(t) for t in tabs if t["name"] in pipes.script_tables(s)})
             for c in ops0.column_names:
                 kind_ = res0[c].dtype.kind
-                colty[c] = "str" if kind_ == "O" and c in ("s", "src") else ("float" if kind_ in "fiub" else None)
+                colty[c] = "str" if kind_ == "O" and c in ("s", "src") else ("float" if kind_ in "fiu" else ("bool" if kind_ == "b" else None))   # booleans are not numbers: no arithmetic on them
             if all(v is not None for v in colty.values()):
                 g = pipes.Gen(rng, tabs, features=["extend", "select_rows", "select_columns", "drop_columns", "rename_columns", "order_rows", "project"])
                 order = list(ops0.column_names)
